@@ -1,5 +1,6 @@
 let props : (string * (module Frame.PROP)) list = [
   ("C01", (module C01));
+  ("C02", (module C02));
   ("C03", (module C03));
   ("C04", (module C04));
   ("C05", (module C05));
